@@ -148,6 +148,22 @@ def run(ck, m):
     ck.expect(n_memo >= 5, f"expected >= 5 query-derived memos (2 decorated + 3 hand-rolled), found {n_memo}")
 
     # ---- R3 -----------------------------------------------------------------------------
+    # roles of the decorators' closure variables: `lock` = the name bound to RLock() in the decorator body, `cache` = the memo container
+    # (the dict / None bound next to it) - renamed in the model's private copy so the rule text does not depend on their spelling
+    from tiv.roles import rename_locals
+    for dq in ("cached", "terminal_size_cached"):
+        dfn = m.get(U, dq)
+        roles = {}
+        for st_ in dfn.body:
+            tg = st_.targets[0] if isinstance(st_, ast.Assign) and len(st_.targets) == 1 else (st_.target if isinstance(st_, ast.AnnAssign) and st_.value is not None else None)
+            v_ = getattr(st_, "value", None)
+            if isinstance(tg, ast.Name) and v_ is not None:
+                if isinstance(v_, ast.Call) and (call_name(v_) or "").split(".")[-1] == "RLock":
+                    roles.setdefault(tg.id, "lock")
+                elif (isinstance(v_, ast.Dict) and not v_.keys) or (isinstance(v_, ast.Constant) and v_.value is None) or (isinstance(v_, ast.Call) and call_name(v_) == "dict" and not v_.args):
+                    roles.setdefault(tg.id, "cache")
+        if sorted(roles.values()) == ["cache", "lock"]:
+            ck.extra.setdefault("roles", {})[dq] = rename_locals(dfn, roles)
     cached = m.get(U, "cached")
     cw = m.get(U, "cached.cached_wrapper")
     inv = m.get(U, "cached.invalidate")
